@@ -77,15 +77,53 @@ func (w *world) finishStep(st *step) {
 	}
 }
 
-// mustReport: every store access of the step failed (outage for the whole step, or every GET
-// answered with an error).
-func (st *step) getFails() bool { return st.outage || st.fault == fErrGET }
+// getFails: the first store access of the call certainly fails (the node owning the key it starts
+// with is down for the whole step, or every GET of the row's keys is answered with an error).
+func (st *step) getFails(c *call) bool {
+	if st.fault == fErrGET {
+		return true
+	}
+	if c.kind == rIndex {
+		return st.out(st.ent.ikey)
+	}
+	return st.out(st.ent.pkey)
+}
+
+func (st *step) allGetsFail() bool {
+	for _, c := range st.readers {
+		if !st.getFails(c) {
+			return false
+		}
+	}
+	return true
+}
+
+// touched: the nodes a read of this kind can reach.
+func (w *world) touched(st *step, c *call) []*node {
+	ns := []*node{w.ownerOf(st.ent.pkey)}
+	if c.kind == rIndex {
+		if o := w.ownerOf(st.ent.ikey); o != ns[0] {
+			ns = append(ns, o)
+		}
+	}
+	return ns
+}
+
+func (w *world) allClean(st *step, ns []*node) bool {
+	for _, n := range ns {
+		if !w.clean(st, n) {
+			return false
+		}
+	}
+	return true
+}
 
 func (w *world) checkRead(st *step) {
 	ent := st.ent
 	ginv, gret := st.bounds()
 	stale := st.dirtyPre
 	relaxed := st.pendPre || w.cleanerPending(ent) // the cleaner may delete the entries at any moment
+	risk := st.breakerRsk || w.riskEnt(ent)
 	cur := w.curRow(ent)
 	if len(st.readers) > 1 {
 		w.r.Probe("concurrent-read-group")
@@ -143,14 +181,25 @@ func (w *world) checkRead(st *step) {
 			}
 			w.r.Probe("store-error-returned")
 			// (5) a failing GET is reported without querying the database
-			if len(c.own) > 0 && (st.getFails() || (c.kind != rIndex && st.fault != fErrSET)) {
+			if len(c.own) > 0 && (st.getFails(c) || (c.kind != rIndex && st.fault != fErrSET)) {
 				w.fail("query-on-store-error", "call %d (%s) returned the store error %v but ran %d database quer(ies)", c.id, readKindNames[c.kind], c.err, len(c.own))
 			}
+			// nothing was injected on the node(s) this read talks to: a failure elsewhere is not its business
+			if w.allClean(st, w.touched(st, c)) {
+				class := "store-error-on-healthy-node"
+				if st.otherDown {
+					class += ":other-node-down"
+				}
+				w.fail(class, "call %d (%s) returned %v; no fault was injected on the node(s) owning the row's keys during the read nor in the %v before it", c.id, readKindNames[c.kind], c.err, breakerWindow)
+			}
 		}
-		if st.getFails() {
+		if st.otherDown && w.allClean(st, w.touched(st, c)) {
+			w.r.Probe("read-on-healthy-node-while-other-node-down")
+		}
+		if st.getFails(c) {
 			if c.out != oStoreErr {
 				w.fail("store-error-not-reported", "call %d (%s): every store access failed (%s) but the call returned (%+v, %v)", c.id, readKindNames[c.kind], st.faultDesc(), c.got, c.err)
-			} else if st.outage {
+			} else if st.anyOut() {
 				w.r.Probe("store-outage-during-read")
 			}
 		}
@@ -164,7 +213,7 @@ func (w *world) checkRead(st *step) {
 			}
 		}
 	}
-	if st.getFails() && len(st.execs) > 0 {
+	if st.allGetsFail() && len(st.execs) > 0 {
 		w.fail("query-on-store-error", "%d database quer(ies) ran while every store access failed (%s)", len(st.execs), st.faultDesc())
 	}
 	// query accounting per cache key
@@ -238,7 +287,7 @@ func (w *world) checkRead(st *step) {
 	}
 	// (2)/(3) once a load succeeded the entry serves everybody else until min-expiry
 	for kind := 0; kind < 2; kind++ {
-		if nOK[kind] <= 1 || relaxed || st.fault == fErrSET || st.fault == fLossy || st.outage || st.breakerRsk || w.breakerRisk() {
+		if nOK[kind] <= 1 || relaxed || st.fault == fErrSET || st.fault == fLossy || st.anyOut() || risk {
 			continue
 		}
 		base := w.e
@@ -259,6 +308,32 @@ func (w *world) checkRead(st *step) {
 			w.fail("db-error-cached", "key %s: every database query failed with an injected error, yet the store now holds %q", w.keyOf(ent, kind), post[kind].val)
 		}
 	}
+	// a successful load is written to the store (how else would the next read be served without a
+	// query): where nothing disturbed the key's node, the entry is there
+	if (st.fault == fNone || st.fault == fLatency) && !relaxed && !stale {
+		for kind := 0; kind < 2; kind++ {
+			x := firstOK[kind]
+			if x == nil || !w.clean(st, w.ownerOf(w.keyOf(ent, kind))) {
+				continue
+			}
+			if kind == qIndex && x.ver != 0 && !w.clean(st, w.ownerOf(ent.pkey)) {
+				continue // the index loader writes the primary entry first and gives up when that fails
+			}
+			base := w.e
+			if x.ver == 0 {
+				base = w.nfe
+			}
+			if !post[kind].ex && post[kind].at.Sub(x.te) < w.minTTL(base) {
+				w.fail("load-not-cached", "key %s: the database query of call %d succeeded %v ago, the store was healthy, and the key is not in the store (expiry %v)", w.keyOf(ent, kind), x.caller.id, post[kind].at.Sub(x.te), base)
+			}
+			w.r.Probe("load-cached-checked")
+		}
+		// an index load writes the primary entry too
+		if x := firstOK[qIndex]; x != nil && x.ver != 0 && w.clean(st, w.ownerOf(ent.pkey)) && w.clean(st, w.ownerOf(ent.ikey)) &&
+			!post[0].ex && post[0].at.Sub(x.te) < w.minTTL(w.e) {
+			w.fail("load-not-cached", "key %s: the index query of call %d loaded the row %v ago, the store was healthy, and the primary entry is not in the store", ent.pkey, x.caller.id, post[0].at.Sub(x.te))
+		}
+	}
 	// (6) lower TTL bound of entries written by this step
 	if st.fault == fNone || st.fault == fLatency {
 		for kind := 0; kind < 2; kind++ {
@@ -273,7 +348,7 @@ func (w *world) checkRead(st *step) {
 	}
 	// the primary entry written by an index load outlives the index entry
 	if nOK[qIndex] > 0 && firstOK[qIndex].ver != 0 && ix.missFrom(ginv) && p.missFrom(ginv) && post[0].ex && post[1].ex && post[0].ttl > 0 && post[1].ttl > 0 &&
-		n[qPrimary] == 0 && nOK[qIndex] == 1 && (st.fault == fNone || st.fault == fLatency) && !st.outage {
+		n[qPrimary] == 0 && nOK[qIndex] == 1 && (st.fault == fNone || st.fault == fLatency) && !st.anyOut() {
 		w.r.Probe("index-load-both-entries-written")
 		dur := gret.Sub(ginv)
 		if !post[0].x.Add(dur).After(post[1].x) {
@@ -283,7 +358,7 @@ func (w *world) checkRead(st *step) {
 }
 
 func (st *step) faultDesc() string {
-	if st.outage {
+	if st.anyOut() {
 		return "store down"
 	}
 	return faultNames[st.fault]
@@ -313,6 +388,23 @@ func (w *world) checkWrite(st *step) {
 		w.r.Logf("  %s -> err=%v post P=%+v I=%+v", stepKindNames[st.kind], st.err, post[0], post[1])
 	}
 	switch st.kind {
+	case kNoCache:
+		// the statement goes to the database connection as it is and the cache is left alone
+		if st.err != errNoSQL {
+			w.fail("no-cache-pass-through", "%s returned %v, the database connection returned %q", noCacheNames[st.nocache], st.err, errNoSQL)
+		}
+		if n := w.taskCmds[st.taskID]; n > 0 {
+			w.fail("no-cache-touched-the-store", "%s sent %d command(s) to the cache store", noCacheNames[st.nocache], n)
+		}
+		if !st.pendPre && !w.cleanerPending(ent) {
+			for i, pre := range st.pre {
+				if pre.hitBy(post[i].at.Add(1)) && (!post[i].ex || post[i].val != pre.val) {
+					w.fail("no-cache-touched-the-store", "%s: key %s held %q before and holds %q (present: %v) after", noCacheNames[st.nocache], ent.keys()[i], pre.val, post[i].val, post[i].ex)
+				}
+			}
+		}
+		w.r.Probe("no-cache-pass-through")
+		return
 	case kFailExec:
 		if !errors.Is(st.err, errWrite) {
 			w.fail("exec-error-swallowed", "Exec whose database write failed returned %v", st.err)
@@ -328,7 +420,14 @@ func (w *world) checkWrite(st *step) {
 		return
 	case kSetCache, kSetCacheExp:
 		relaxed := st.pendPre || w.cleanerPending(ent)
-		setFails := st.outage || st.fault == fErrSET
+		setFails := st.out(ent.pkey) || st.fault == fErrSET
+		if st.err != nil && w.faulty && w.clean(st, w.ownerOf(ent.pkey)) {
+			class := "store-error-on-healthy-node:set"
+			if st.otherDown {
+				class += ":other-node-down"
+			}
+			w.fail(class, "%s(%s) returned %v; no fault was injected on the node owning the key", stepKindNames[st.kind], ent.pkey, st.err)
+		}
 		if st.err != nil && !w.faulty {
 			w.fail("unexpected-error", "%s returned %v in a history without store faults", stepKindNames[st.kind], st.err)
 		}
@@ -362,29 +461,60 @@ func (w *world) checkWrite(st *step) {
 	if st.err != nil {
 		w.fail("unexpected-error", "%s returned %v", stepKindNames[st.kind], st.err)
 	}
-	if !w.faulty {
-		ent.idxLoaded, ent.customTTL = false, 0
-		return // the coherence invariant checks that nothing stale survived
-	}
-	nDel := 0
-	for _, d := range w.dels {
-		if d.harness && d.key == ent.pkey && d.clk > st.cinv && d.clk < st.cret {
-			nDel++
+	// per key: did its DEL reach the node that owns it?  Keys of one call that live on one node
+	// travel in one command, keys on different nodes are deleted node by node, and a node that is
+	// unreachable must not keep the call from invalidating the keys on the others.
+	for _, e := range st.ents() {
+		all := true
+		for j, k := range e.keys() {
+			if st.kind == kDelCache && st.only > 0 && j != st.only-1 {
+				all = false
+				continue // not handed to the call
+			}
+			o := w.ownerOf(k)
+			nDel := 0
+			for _, d := range w.dels {
+				if d.harness && d.key == k && d.clk > st.cinv && d.clk < st.cret {
+					nDel++
+				}
+			}
+			clean := w.clean(st, o)
+			if clean && nDel == 0 {
+				class := "invalidation-not-executed"
+				if st.anyOut() {
+					class += ":other-node-down"
+				} else if len(st.more) > 0 {
+					class += ":multi-row"
+				}
+				w.fail(class, "%s returned, key %s was to be invalidated, its node %d had no fault, and no DEL of the key reached it", stepKindNames[st.kind], k, o.idx)
+			}
+			if clean && st.anyOut() && !st.out(k) {
+				w.r.Probe("invalidation-on-healthy-node-while-other-node-down")
+			}
+			// nobody else works on the row while it is written, so what was deleted is still gone
+			if clean && nDel > 0 {
+				if sn := w.snapKey(k); sn.ex {
+					w.fail("invalidated-key-still-in-store", "%s returned, the DEL of key %s was executed by node %d, and the key holds %q", stepKindNames[st.kind], k, o.idx, sn.val)
+				}
+			}
+			if !clean || nDel != 1 {
+				e.cleanerMaybe[j]++
+			}
+			if nDel == 0 {
+				w.r.Probe("invalidation-del-failed")
+				if !e.dirty() {
+					e.dirtyInv = st.tinv
+				}
+				e.dirtyK[j] = true
+				e.dirtyRet = st.tret
+				all = false
+			} else {
+				e.dirtyK[j] = false
+			}
 		}
-	}
-	anomalous := st.fault == fErrDEL || st.fault == fLossy || st.outage || nDel != 1 || st.breakerRsk || w.breakerRisk()
-	if anomalous {
-		ent.cleanerMaybe++
-	}
-	if nDel == 0 {
-		w.r.Probe("invalidation-del-failed")
-		if !ent.dirty {
-			ent.dirty, ent.dirtyInv = true, st.tinv
+		if all {
+			e.idxLoaded, e.customTTL = false, 0
 		}
-		ent.dirtyRet = st.tret
-	} else {
-		ent.dirty = false
-		ent.idxLoaded, ent.customTTL = false, 0
 	}
 }
 
@@ -402,6 +532,16 @@ func (w *world) invariants() {
 	for _, ent := range w.ents {
 		for i, k := range ent.keys() {
 			s := w.snapKey(k)
+			// the key lives on the node that serves it and nowhere else
+			for _, n := range w.nodes {
+				if n == w.ownerOf(k) {
+					continue
+				}
+				n.srv.Sync()
+				if n.srv.MR().Exists(k) {
+					w.fail("key-on-foreign-node", "key %s is served by node %d and is present on node %d", k, w.ownerOf(k).idx, n.idx)
+				}
+			}
 			if !s.ex {
 				continue
 			}
@@ -427,7 +567,7 @@ func (w *world) invariants() {
 				w.fail("ttl-exceeds-expiry:"+kind, "key %s (%q) has TTL %v, more than the expiry allows (%v)", k, s.val, s.ttl, bound)
 			}
 			w.r.Probe("ttl-checked")
-			if ent.dirty {
+			if ent.dirtyK[i] {
 				continue
 			}
 			ok := false
@@ -456,7 +596,9 @@ func (w *world) finish() {
 	for _, ru := range w.rules {
 		ru.gone = true
 	}
-	w.down = simredis.None
+	for _, n := range w.nodes {
+		n.down = simredis.None
+	}
 	if w.faulty {
 		quiet := time.Now()
 		if !w.lastFault.IsZero() {
@@ -467,7 +609,7 @@ func (w *world) finish() {
 		}
 		var deadline time.Time
 		for _, ent := range w.ents {
-			if !ent.dirty {
+			if !ent.dirty() {
 				continue
 			}
 			// the first rung whose earliest possible instant (one wheel tick early per rung) lies in
@@ -499,13 +641,16 @@ func (w *world) finish() {
 			for _, ent := range w.ents {
 				if ent.hasDeadline {
 					w.r.Probe("cleaner-deadline-checked")
+					if w.cluster {
+						w.r.Probe("cleaner-deadline-checked-in-cluster")
+					}
 				}
-				if !ent.dirty || !ent.hasDeadline {
+				if !ent.dirty() || !ent.hasDeadline {
 					continue
 				}
 				for i, k := range ent.keys() {
 					s := w.snapKey(k)
-					if !s.ex {
+					if !s.ex || !ent.dirtyK[i] {
 						continue
 					}
 					stale := false
@@ -523,7 +668,7 @@ func (w *world) finish() {
 							ent.idx, ent.dirtyRet.Sub(w.start), deadline.Sub(w.start), time.Since(w.start), k, s.val, w.curRow(ent))
 					}
 				}
-				ent.dirty = false // from here on reads must be coherent
+				ent.dirtyK = [2]bool{} // from here on reads must be coherent
 			}
 		} else if !deadline.IsZero() {
 			w.r.Probe("cleaner-deadline-too-far")
